@@ -153,8 +153,17 @@ def judge(ctx, c):
     #      a bin), evaluated with the same source-term objects: bulk rates must use that spectrum's own bins
     c_sib = dict(c)
     c_sib["freq"] = np.asarray(c["freq"]) * 1.37
-    c_sib["dir"] = (np.asarray(c["dir"]) + 180.0 / nd) % 360.0
+    if c.get("sib_widths") is not None:
+        # ... and with direction bins of unequal width ("the spectrum's own bin widths"): the same numbers on a
+        # non-uniform direction grid are simply another non-negative spectrum
+        wdt = np.asarray(c["sib_widths"], float)
+        wdt = wdt / wdt.sum() * 360.0
+        c_sib["dir"] = (np.cumsum(wdt) - wdt[0] + float(c.get("sib_start", 0.0))) % 360.0
+        ctx.count("C08.second_grid_with_unequal_direction_bins")
+    else:
+        c_sib["dir"] = (np.asarray(c["dir"]) + 180.0 / nd) % 360.0
     s_sib = wl.build(c_sib)
+    # ("own bin widths" = the spectrum object's direction_step, whose definition C02 judges)
     df2, dth2 = wl.steps(s_sib)
     area2 = df2[:, None] * dth2[None, :]
     okr, r_s = guarded(ctx, "C08.no-exception",
@@ -200,6 +209,27 @@ def judge(ctx, c):
             sc = float(np.max(np.abs(want[fin]), initial=0))
             ctx.close("C08.bulk-imbalance==gen+diss-m0(dEdt)", np.asarray(bi.values)[fin], want[fin], atol=1e-11 * sc,
                       rtol=1e-9, case=wit, key="C08:bulk-imbalance")
+        if n > 1:
+            # the supplied rate of change belongs to the spectra by its time stamps, not by its position: the same
+            # tendency with its records in another order must give the same imbalance
+            perm = [int(k) for k in c.get("perm", list(range(n))[::-1])]
+            if perm == sorted(perm):
+                perm = perm[::-1]
+            sdot_p = sdot.isel(time=perm)
+            okp, imp = guarded(ctx, "C08.no-exception", lambda: b.evaluate_imbalance(u, wd, s, sdot_p), wit, key="C08:exception:imbalance")
+            if ok and okp:
+                a_, b_ = np.asarray(im.values, float), np.asarray(imp.transpose(*im.dims).sel(time=im.time).values, float)
+                fin = np.isfinite(a_)
+                ctx.close("C08.imbalance==gen+diss-dEdt", b_[fin], a_[fin], atol=1e-12 * float(np.max(np.abs(a_[fin]), initial=0)),
+                          rtol=1e-10, case=wit, key="C08:imbalance:tendency-records-reordered")
+            okp, bip = guarded(ctx, "C08.no-exception", lambda: b.evaluate_bulk_imbalance(u, wd, s, sdot_p), wit, key="C08:exception:bulk_imbalance")
+            if okp and okb and db is not None and ok:
+                a_ = np.asarray(bi.values, float)
+                b_ = np.asarray(bip.sel(time=bi.time).values, float)
+                fin = np.isfinite(a_)
+                ctx.close("C08.bulk-imbalance==gen+diss-m0(dEdt)", b_[fin], a_[fin], atol=1e-11 * float(np.max(np.abs(a_[fin]), initial=0)),
+                          rtol=1e-9, case=wit, key="C08:bulk-imbalance:tendency-records-reordered")
+            ctx.count("C08.tendency_with_reordered_records")
         # without a rate of change
         ok, im0 = guarded(ctx, "C08.no-exception", lambda: b.evaluate_imbalance(u, wd, s), wit, key="C08:exception:imbalance")
         if ok and okg:
@@ -266,6 +296,9 @@ def make(rng, i):
               "scale": float(rng.uniform(0.3, 3.0)),
               "dEdt": rng.normal(0, 1e-6, E.shape) * (E > 0),
               "perm": rng.permutation(E.shape[0]), "check_default": bool(i % 2 == 0)})
+    if rng.uniform() < 0.6:
+        c["sib_widths"] = rng.uniform(0.5, 1.5, E.shape[-1])
+        c["sib_start"] = float(rng.uniform(0, 360))
     return c
 
 
